@@ -462,7 +462,7 @@ def its_rel(ops, bits):
 
 ITS_N = (50, 600)
 register('C04', corr=trace_corr('its', 'itscases', ITS_N, its_rel({'execute', 'gwApprove', 'init'}, 27), ITS_RULE, its_nontrivial, monitor=_itsmon),
-         assumptions=['ESDT-level transfer rules (frozen accounts, non-payable recipients) are outside the model', 'zero-amount inbound transfers are not generated'])
+         assumptions=['ESDT-level transfer rules (frozen accounts, non-payable recipients) are outside the model', 'zero-amount inbound transfers are generated only for token ids nobody registered (refused before any transfer is attempted); the VM mock refuses zero-value ESDT transfers'])
 register('C05', corr=trace_corr('its', 'itscases', ITS_N, its_rel({'transfer', 'callContract'}, 31), ITS_RULE, its_nontrivial, monitor=_itsmon),
          assumptions=['the EGLD-000000 multi-transfer representation of EGLD is modelled but not exercised by the harness; c05_service_balances_unchanged excludes it by hypothesis',
                       'c05_service_balances_unchanged: the service is not the caller, the token manager or the gas service'])
